@@ -20,7 +20,7 @@ import (
 func init() { register("C16", "exploration", runC16) }
 
 func runC16(run *common.Run) {
-	run.Rule = "Part 'policy' (sequential): case = generated table (families with max-versions 1..3, max-age, union of both, nested union, intersection [unsupported], no rule) with cells exactly at, 1 ms before and 1 ms after the max-age cut-off, several versions, rows that become empty, plus a second table without rules; one real pass forced through the hook entry point with the injected clock; full scans before/after compared with the GC model, emptied rows absent from ReadRows and SampleRowKeys. Part 'race': case = one forced pass over 250-1200 rows during which, at every point where the pass has released the table lock (hook gc.unlocked), client requests are performed and acknowledged: 1-3 row writes (new cell, overwrite, old-timestamp cell, DeleteFromRow; sent as MutateRow, a MutateRows entry, a CheckAndMutateRow branch or a ReadModifyWriteRow append/increment) to rows behind, at and ahead of the cursor, and/or DropRowRange of a ten-row prefix block (one pass in four: only DropRowRange, no data-plane request at all), or a single ModifyColumnFamilies drop of a family; final scan: every written row must equal 'GC applied at some position of its acknowledged write sequence', unwritten rows GC(initial) [all three engines]. Part 'idle': a pass on a table used just now changes nothing, after pretending 10 min of inactivity it collects; a pass over >= 2000 rows releases the lock at least once and clients complete while it is parked there. Non-trivial = pass that removed some but not all cells (policy) / pass with >= 1 injected write acknowledged (race); distinct by case."
+	run.Rule = "Part 'policy' (sequential): case = generated table (families with max-versions 1..3, max-age, union of both, nested union, intersection [unsupported], no rule) with cells exactly at, 1 ms before and 1 ms after the max-age cut-off, several versions, rows that become empty, marker rows whose cells all have empty values, plus a second table without rules; one real pass forced through the hook entry point with the injected clock; full scans before/after compared with the GC model, emptied rows absent from ReadRows and SampleRowKeys. Part 'race': case = one forced pass over 250-1200 rows during which, at every point where the pass has released the table lock (hook gc.unlocked), client requests are performed and acknowledged: 1-3 row writes (new cell, overwrite, old-timestamp cell, DeleteFromRow; sent as MutateRow, a MutateRows entry, a CheckAndMutateRow branch or a ReadModifyWriteRow append/increment) to rows behind, at and ahead of the cursor, and/or DropRowRange of a ten-row prefix block (one pass in four: only DropRowRange, no data-plane request at all), or a single ModifyColumnFamilies drop of a family; final scan: every written row must equal 'GC applied at some position of its acknowledged write sequence', unwritten rows GC(initial) [all three engines]. Part 'idle': a pass on a table used just now changes nothing, after pretending 10 min of inactivity it collects; a pass over >= 2000 rows releases the lock at least once and clients complete while it is parked there. Non-trivial = pass that removed some but not all cells (policy) / pass with >= 1 injected write acknowledged (race); distinct by case."
 	run.Assumptions = []string{"GC model: max-versions keeps the N newest, max-age condemns ts < now-age, union = either, unsupported types leave the family alone", "nested intersection inside a union is not generated", "the 15-60 s scheduling loop itself is not waited for; the pass is entered through the verif hook"}
 	if run.WantSub("policy") {
 		c16Policy(run)
@@ -109,6 +109,9 @@ func c16Policy(run *common.Run) {
 			if r.Chance(1, 3) {
 				onlyFam = common.Pick(r, []string{"a", "u"}) // rows that can become empty
 			}
+			// a third of the rows are marker rows: every cell has an empty value (the information is in the key,
+			// qualifier and timestamp), so collecting their cells frees no value bytes
+			markers := r.Chance(1, 3)
 			for c := 0; c < ncell; c++ {
 				f := common.Pick(r, famNames)
 				if onlyFam != "" {
@@ -118,7 +121,11 @@ func c16Policy(run *common.Run) {
 				if ts < 0 {
 					ts = 0
 				}
-				muts = append(muts, model.Mut{Kind: model.SetCell, Fam: f, Qual: common.Pick(r, []string{"q", "p"}), TS: ts, Val: fmt.Sprint("v", c)})
+				val := fmt.Sprint("v", c)
+				if markers || r.Chance(1, 8) {
+					val = ""
+				}
+				muts = append(muts, model.Mut{Kind: model.SetCell, Fam: f, Qual: common.Pick(r, []string{"q", "p"}), TS: ts, Val: val})
 			}
 			v, nr := m.Apply(key, muts, now)
 			st := drive.MutateRow(srv.Data, table, key, muts)
